@@ -59,7 +59,9 @@ package container
 //@   ensures [C17] allornothing: result1 != nil ==> result0 == nil
 //@   ensures [C17] nonnil: result1 == nil ==> result0 != nil
 //@   ensures [C17,C08] labelled: result1 == nil ==> labelled(result0)
-//@   loop 0: invariant ctn != nil && fresh(ctn) && labelled(ctn)
+//@   // yielderrs counts the blocks the iterator reported as unreadable (corrupt, mislabelled, truncated): none may be skipped
+//@   ensures [C17,C18] nofault: result1 == nil ==> yielderrs == 0
+//@   loop 0: invariant ctn != nil && fresh(ctn) && labelled(ctn) && yielderrs == 0
 //@ func FromCbor
 //@   requires modelsWF()
 //@   ensures [C17,C18] same: result1 == cborErr(bytes(data)) && (result1 == nil ==> (forall k cid.Cid :: has(result0, k) == cborHas(bytes(data), k)))
@@ -100,7 +102,8 @@ package container
 //@   requires w != nil
 //@   ensures [C18] fault: result == nil ==> wfailed(w) == old(wfailed(w))
 //@   assigns written(w), wfailed(w)
-//@   loop 0: invariant wfailed(w) == old(wfailed(w))
+//@   ensures [C17,C18] nofault: result == nil ==> yielderrs == 0
+//@   loop 0: invariant wfailed(w) == old(wfailed(w)) && yielderrs == 0
 //@ func (*carHeader).Write
 //@   requires ch != nil
 //@   assigns nothing
